@@ -860,13 +860,13 @@ fn main() {
             (Tier::Quick, Cv::Jub) => (nth < 1).then(|| if n <= 400 { 1 } else { by_target(48) }),
             (Tier::Quick, Cv::Secp) => (nth < 1).then(|| {
                 if k >= 13 {
-                    by_target(10)
+                    by_target(8)
                 } else if core && n <= 600 {
                     1
                 } else if core {
-                    by_target(256)
+                    by_target(192)
                 } else {
-                    by_target(40)
+                    by_target(32)
                 }
             }),
             (Tier::Quick, Cv::Bls) => None,
